@@ -47,16 +47,16 @@ func (k orderKey) fn() string {
 // query is one generated query: the statement as sent (Q with OrderBy / Limit / AllFields) and its "full" form (no order by,
 // no limit), whose result is the reference the kept groups are compared with.
 type query struct {
-	ID        int          `json:"id"`
-	Q         *node.Query  `json:"-"`
-	OrderBy   []orderKey   `json:"order_by,omitempty"`
-	AllFields bool         `json:"all_fields,omitempty"`
-	Kind      string       `json:"kind"` // plain | grouped | topn | limit | auto-interval | error | all-fields
-	SQLText   string       `json:"sql"`
-	FullSQL   string       `json:"full_sql"`
-	Limited   bool         `json:"limited"`
-	ErrWanted string       `json:"err_wanted,omitempty"`
-	full      *node.Query  // Q without limit
+	ID        int         `json:"id"`
+	Q         *node.Query `json:"-"`
+	OrderBy   []orderKey  `json:"order_by,omitempty"`
+	AllFields bool        `json:"all_fields,omitempty"`
+	Kind      string      `json:"kind"` // plain | grouped | topn | limit | auto-interval | error | all-fields
+	SQLText   string      `json:"sql"`
+	FullSQL   string      `json:"full_sql"`
+	Limited   bool        `json:"limited"`
+	ErrWanted string      `json:"err_wanted,omitempty"`
+	full      *node.Query // Q without limit
 	exp       *node.Expected
 }
 
